@@ -272,6 +272,13 @@ fn handle(line: &str, big: &mut [u8]) -> String {
             }
             out
         }
+        ["reqs", _cfg, hx] => {
+            // the same on a thread with a small stack (192 KiB — generous for firmware): decoding that does not look at
+            // the bytes behind a parameter-less command cannot depend on how deeply they nest
+            let Some(bytes) = unhex(hx) else { return "bad-case".into() };
+            let h = std::thread::Builder::new().stack_size(192 * 1024).spawn(move || req_outcome(&bytes)).expect("harness: thread");
+            match h.join() { Ok(s) => s, Err(_) => "panic".into() }
+        }
         ["sweep", _cfg, prefix, n] => {
             // every byte string `prefix ‖ s`, |s| = n: outcome classes and an order-independent digest
             let (Some(prefix), Ok(n)) = (unhex(prefix), n.parse::<u32>()) else { return "bad-case".into() };
